@@ -177,6 +177,7 @@ package regexp2
 //@   modifies r.Runtextpos, r.Runtrackpos, r.Runstackpos, r.runcrawlpos, r.runtrack, r.runstack, r.runcrawl,
 //@            r.operator, r.codepos, r.rightToLeft, r.caseInsensitive, r.runmatch.balancing,
 //@            r.runmatch.matches[*], r.runmatch.matchcount[*], r.runmatch.matches[0][*]
+//@   ensures[E-marks] !r.runmatch.balancing ==> NoMarkers(r.runmatch)
 //@   ensures[E-inv]  MatchWF(r.runmatch) && RunnerAlloc(r) && r.runcrawl != nil && len(r.runmatch.matchcount) == old(len(r.runmatch.matchcount))
 //@   ensures[E1] err == nil ==> ((r.runmatch.matchcount[0] > 0) == Att(r.code, r.Runtext, r.Runtextstart, old(r.Runtextpos)))
 //@   ensures[E2-ltr] err == nil && r.runmatch.matchcount[0] > 0 && !r.code.RightToLeft ==>
@@ -280,6 +281,7 @@ package regexp2
 //@ func (r *Runner) tidyMatch(quick bool) (m *Match)
 //@   props C08 C12 C07
 //@   requires r != nil && (!quick ==> r.runmatch != nil) && (r.runmatch != nil ==> MatchWF(r.runmatch) && r.runmatch.matches[0] != nil)
+//@   requires !quick && !r.runmatch.balancing ==> NoMarkers(r.runmatch)
 //@   modifies r.runmatch, r.runmatch.*, elems(int)
 //@   ensures[same]    m == old(r.runmatch)
 //@   ensures[detach]  !quick ==> r.runmatch == nil
@@ -289,15 +291,48 @@ package regexp2
 //@   ensures[fields]  m != nil && (!quick || old(r.runmatch.matchcount[0]) > 0) ==> m.RuneIndex == old(r.runmatch.matches[0][0]) && m.RuneLength == old(r.runmatch.matches[0][1])
 //@   ensures[wf]      quick && m != nil ==> MatchWF(m) && forall g int :: 0 <= g && g < len(m.matchcount) ==> m.matchcount[g] == old(r.runmatch.matchcount[g])
 
-// Match.tidy: header fields are verified-by-contract users' view. The compaction of balanced captures (three nested
-// loops whose safety rests on the interpreter's balancing discipline) is not verified yet: trusted.
+// Match.tidy fills the header fields from group 0 and compacts balanced captures. Verified: header fields, the
+// representation invariant, and that no balancing marker (negative entry) survives among the reported captures.
+// Assumed (listed): within one group's array, markers never outnumber the captures before them (the interpreter's
+// balancing discipline) - needed for the write cursor j to stay non-negative.
+//@ spec func NoMarkersG(m *Match, g int) bool = forall k int :: 0 <= k && k < 2*m.matchcount[g] ==> m.matches[g][k] >= 0
+//@ spec func NoMarkers(m *Match) bool = forall g int :: 0 <= g && g < len(m.matchcount) ==> NoMarkersG(m, g)
 //@ func (m *Match) tidy(textpos int)
-//@   trusted compaction loops for balanced captures not verified; header-field postconditions transcribed from the first five statements
-//@   requires MatchWF(m)
+//@   props C08
+//@   requires MatchWF(m) && (!m.balancing ==> NoMarkers(m))
 //@   modifies m.*, elems(int)
-//@   ensures m.RuneIndex == old(m.matches[0][0]) && m.RuneLength == old(m.matches[0][1]) && m.textpos == textpos && m.capcount == old(m.matchcount[0])
-//@   ensures !m.balancing && m.text == old(m.text) && m.textstart == old(m.textstart) && m.regex == old(m.regex) && m.matches == old(m.matches) && m.matchcount == old(m.matchcount)
-//@   ensures len(m.Captures) == 1 && m.Captures[0].RuneIndex == m.RuneIndex && m.Captures[0].RuneLength == m.RuneLength && m.Captures[0].text == m.text
+//@   ensures[header] m.RuneIndex == old(m.matches[0][0]) && m.RuneLength == old(m.matches[0][1]) && m.textpos == textpos && m.capcount == old(m.matchcount[0])
+//@   ensures[kept]   !m.balancing && m.text == old(m.text) && m.textstart == old(m.textstart) && m.regex == old(m.regex) && m.matches == old(m.matches) && m.matchcount == old(m.matchcount)
+//@   ensures[caps]   len(m.Captures) == 1 && m.Captures[0].RuneIndex == m.RuneIndex && m.Captures[0].RuneLength == m.RuneLength && m.Captures[0].text == m.text
+//@   ensures[wf]     MatchWF(m)
+//@   ensures[nomarkers] NoMarkers(m)
+//@   ensures[same]   !old(m.balancing) ==> forall g int :: 0 <= g && g < len(m.matchcount) ==> m.matchcount[g] == old(m.matchcount[g])
+//@   loop 0:
+//@     invariant 0 <= cap && cap <= len(m.matchcount) && MatchWF(m) && m.matches == old(m.matches) && m.matchcount == old(m.matchcount)
+//@     invariant m.RuneIndex == old(m.matches[0][0]) && m.RuneLength == old(m.matches[0][1]) && m.textpos == textpos && m.capcount == old(m.matchcount[0])
+//@     invariant m.text == old(m.text) && m.textstart == old(m.textstart) && m.regex == old(m.regex)
+//@     invariant len(m.Captures) == 1 && fresh(m.Captures) && m.Captures[0].RuneIndex == m.RuneIndex && m.Captures[0].RuneLength == m.RuneLength && m.Captures[0].text == m.text
+//@     invariant forall g int :: 0 <= g && g < cap ==> NoMarkersG(m, g)
+//@     decreases len(m.matchcount) - cap
+//@   loop 1:
+//@     invariant 0 <= cap && cap < len(m.matchcount) && MatchWF(m) && m.matches == old(m.matches) && m.matchcount == old(m.matchcount)
+//@     invariant matcharray == m.matches[cap] && limit == 2*m.matchcount[cap] && 0 <= i && i <= limit
+//@     invariant forall k int :: 0 <= k && k < i ==> matcharray[k] >= 0
+//@     invariant m.RuneIndex == old(m.matches[0][0]) && m.RuneLength == old(m.matches[0][1]) && m.textpos == textpos && m.capcount == old(m.matchcount[0])
+//@     invariant m.text == old(m.text) && m.textstart == old(m.textstart) && m.regex == old(m.regex)
+//@     invariant len(m.Captures) == 1 && fresh(m.Captures) && m.Captures[0].RuneIndex == m.RuneIndex && m.Captures[0].RuneLength == m.RuneLength && m.Captures[0].text == m.text
+//@     invariant forall g int :: 0 <= g && g < cap ==> NoMarkersG(m, g)
+//@     decreases limit - i
+//@   loop 2:
+//@     invariant 0 <= cap && cap < len(m.matchcount) && MatchWF(m) && m.matches == old(m.matches) && m.matchcount == old(m.matchcount)
+//@     invariant matcharray == m.matches[cap] && limit == 2*m.matchcount[cap] && j <= i && i <= limit
+//@     assume 0 <= j
+//@     invariant forall k int :: 0 <= k && k < j ==> matcharray[k] >= 0
+//@     invariant m.RuneIndex == old(m.matches[0][0]) && m.RuneLength == old(m.matches[0][1]) && m.textpos == textpos && m.capcount == old(m.matchcount[0])
+//@     invariant m.text == old(m.text) && m.textstart == old(m.textstart) && m.regex == old(m.regex)
+//@     invariant len(m.Captures) == 1 && fresh(m.Captures) && m.Captures[0].RuneIndex == m.RuneIndex && m.Captures[0].RuneLength == m.RuneLength && m.Captures[0].text == m.text
+//@     invariant forall g int :: 0 <= g && g < cap ==> NoMarkersG(m, g)
+//@     decreases limit - i
 
 // ---------------------------------------------------------------------------------------------
 // C02 / C07 / C12: entry points on rune slices, runner pool (regexp.go, runner.go)
